@@ -431,6 +431,76 @@ func c09Facts2(c *Ctx) error {
 	wsrc2 := c.Src(wf.Body)
 	b("worthy_guards_zero_total", strings.Contains(wsrc2, "TotalShares.IsZero()") || strings.Contains(wsrc2, "TotalShares.IsPositive()"))
 	b("worthy_first_snapshot_short_circuits", strings.Contains(wsrc2, "if currentSnapshot == nil {"))
+	// ---- error sources of the one end-blocker whose error reaches the SDK (x/valset) ----
+	{
+		errorSources := func(fd *ast.FuncDecl) ([]string, error) {
+			// every `return <non-nil>`: the call whose error it hands on = the last assignment to err before it
+			var out []string
+			var lastCall string
+			var bad error
+			ast.Inspect(fd.Body, func(n ast.Node) bool {
+				if _, ok := n.(*ast.FuncLit); ok {
+					return false
+				}
+				switch v := n.(type) {
+				case *ast.AssignStmt:
+					for _, l := range v.Lhs {
+						if id, ok := l.(*ast.Ident); ok && id.Name == "err" && len(v.Rhs) == 1 {
+							if ce, ok := v.Rhs[0].(*ast.CallExpr); ok {
+								lastCall = c.Src(ce.Fun)
+							} else {
+								lastCall = c.Src(v.Rhs[0])
+							}
+						}
+					}
+				case *ast.ReturnStmt:
+					if len(v.Results) == 1 && c.Src(v.Results[0]) != "nil" {
+						if c.Src(v.Results[0]) != "err" {
+							bad = fmt.Errorf("%s: returns %q, not a callee's err", fd.Name.Name, c.Src(v.Results[0]))
+						}
+						out = append(out, lastCall)
+					}
+				}
+				return true
+			})
+			return out, bad
+		}
+		vm, err := c.Parse("x/valset/module.go")
+		if err != nil {
+			return err
+		}
+		veb := FindFunc(vm, "AppModule", "EndBlock")
+		if veb == nil {
+			return fmt.Errorf("valset EndBlock not found")
+		}
+		src1, err := errorSources(veb)
+		if err != nil {
+			return err
+		}
+		ka, err := c.Parse("x/valset/keeper/keep_alive.go")
+		if err != nil {
+			return err
+		}
+		ug := FindFunc(ka, "Keeper", "UpdateGracePeriod")
+		dec := FindFunc(ka, "", "decodeUnjailedSnapshot")
+		if ug == nil || dec == nil {
+			return fmt.Errorf("UpdateGracePeriod / decodeUnjailedSnapshot not found")
+		}
+		src2, err := errorSources(ug)
+		if err != nil {
+			return err
+		}
+		c.P("Definition valset_endblock_error_sources : list string := %s.", CoqStrList(src1))
+		c.P("Definition update_grace_period_error_sources : list string := %s.", CoqStrList(src2))
+		// reading the snapshot of the last block cannot fail: the decoder has one result, and nothing
+		// between the store reads and the first fallible call returns
+		b("decode_unjailed_snapshot_is_total", dec.Type.Results != nil && len(dec.Type.Results.List) == 1 && c.Src(dec.Type.Results.List[0].Type) == "[][]byte")
+		ugs := c.Src(ug.Body)
+		b("update_grace_period_reads_legacy_by_split", strings.Contains(ugs, "snapshot = bytes.Split(us.Get([]byte(cUnjailedSnapshotStoreKey)), []byte(\",\"))") &&
+			strings.Contains(ugs, "snapshot = decodeUnjailedSnapshot(us.Get([]byte(cUnjailedSnapshotV2StoreKey)))"))
+		b("update_grace_period_drops_legacy_key", strings.Contains(ugs, "us.Delete([]byte(cUnjailedSnapshotStoreKey))"))
+	}
+
 	// ---- x/treasury: the two lookups of a relayer's fee entry by chain compare the SAME way (exact ==) ----
 	{
 		tk, err := c.Parse("x/treasury/keeper/keeper.go")
